@@ -538,3 +538,14 @@ def jitter_ends(draw, case, prob=0.5, lo=0.05e-3, hi=0.4e-3):
             o[e] = [float(a + b) for a, b in zip(o[e], d)]
             n += 1
     return n
+
+
+@st.composite
+def shuffled(draw, items):
+    """a permutation by Fisher-Yates from integer draws (st.permutations is rejected by Hypothesis' byte-string
+    provider, i.e. under fuzz_one_input / atheris)"""
+    a = list(items)
+    for i in range(len(a) - 1, 0, -1):
+        j = draw(st.integers(0, i))
+        a[i], a[j] = a[j], a[i]
+    return a
